@@ -91,9 +91,21 @@ HAND = ["", "\n", "\n\n\n", ">", ">\n", ">a\n", ">a\nACGT\n", ">a\n>b\n", ">a\n\
 @st.composite
 def file_bodies(draw):
     """-> dict(body, wellformed: None | dict(names, seqs))"""
-    mode = draw(st.sampled_from(["good", "good", "mutated", "mutated", "hand", "longname", "oddletters", "emptyrec"]))
+    mode = draw(st.sampled_from(["good", "good", "mutated", "mutated", "hand", "longname", "oddletters", "emptyrec", "manyrows"]))
     if mode == "hand":
         return {"body": draw(st.sampled_from(HAND)), "wf": None, "mode": mode}
+    if mode == "manyrows":
+        # block formats whose blocks hold more rows than the header announces / than the 512-entry array increments
+        nrows = draw(st.sampled_from([3, 5, 511, 512, 513, 600, 1030]))
+        nnames = draw(st.sampled_from([0, 1, 2, nrows - 1, nrows]))
+        fmt = draw(st.sampled_from(["msf", "clu"]))
+        rows = ["r%d ACGTAC" % i for i in range(nrows)]
+        if fmt == "msf":
+            head = ["!!NA_MULTIPLE_ALIGNMENT 1.0", "", " x.msf  MSF: 6  Type: N  Check: 0  ..", ""] + \
+                   [" Name: r%d  Len: 6  Check: 1  Weight: 1.00" % i for i in range(nnames)] + ["", "//", ""]
+        else:
+            head = ["CLUSTAL W (1.83) multiple sequence alignment", "", ""]
+        return {"body": "\n".join(head + rows + ["", ""] + (rows[:draw(st.sampled_from([0, 2, nrows]))])) + "\n", "wf": None, "mode": mode}
     ss = draw(gen.seqsets(max_n=12, max_len=80))
     seqs = ss["seqs"]
     names = draw(gen.names_for(len(seqs), max_len=20, long_names=False))
